@@ -359,4 +359,222 @@ example :
     let h : List AOp := [.grec 0 2 7, .grec 0 2 5, .create .syncGauge]
     ((lvPoints ((amcollect c (amrunRev c h) 0 (fun _ => [])).2.2 0)).lookup 2).map (·.v) = some 7 := by decide
 
+/-! ## Observable gauges at the meter -/
+
+/-- the samples `grecordAll` makes of one invocation's measurements: one tick of the sample clock each -/
+def stampAll : Nat → DMap → List (Nat × Sample) × Nat
+  | clock, [] => ([], clock)
+  | clock, (a, v) :: t => ((a, ⟨v, clock + 1⟩) :: (stampAll (clock + 1) t).1, (stampAll (clock + 1) t).2)
+
+theorem grecordAll_eq : ∀ (ms : DMap) (s : GaugeStorage) (clock : Nat),
+    grecordAll s clock ms = ((stampAll clock ms).1.foldl (fun s kv => grecordOne s kv.1 kv.2) s, (stampAll clock ms).2)
+  | [], _, _ => rfl
+  | (a, v) :: t, s, clock => by
+    simp only [grecordAll, stampAll, List.foldl_cons]
+    exact grecordAll_eq t _ _
+
+/-- the stamped observations instrument `i` (an observable gauge) receives from one `Observe`, and the sample clock
+    afterwards (every gauge invocation advances the clock, also those on other instruments) -/
+def gobs (script : Script) (i : Nat) (kinds : List OKind) : List Reg → Nat → List (Nat × Sample) × Nat
+  | [], clock => ([], clock)
+  | inv :: t, clock =>
+    match kinds[inv.instr]? with
+    | some .gauge =>
+      let st := stampAll clock (measurements (script inv.cb))
+      let r := gobs script i kinds t st.2
+      (if inv.instr = i then st.1 ++ r.1 else r.1, r.2)
+    | _ => gobs script i kinds t clock
+
+theorem foldl_observe_gauge (script : Script) (i : Nat) : ∀ (l : Registry) (m : AMeter),
+    (l.foldl (observeOne script) m).gauges i =
+      (gobs script i m.kinds l m.clock).1.foldl (fun s kv => grecordOne s kv.1 kv.2) (m.gauges i) ∧
+    (l.foldl (observeOne script) m).clock = (gobs script i m.kinds l m.clock).2
+  | [], m => ⟨rfl, rfl⟩
+  | inv :: t, m => by
+    obtain ⟨f1, _⟩ := observeOne_frame script m inv
+    obtain ⟨i1, i2⟩ := foldl_observe_gauge script i t (observeOne script m inv)
+    simp only [List.foldl_cons]
+    rw [i1, i2, f1]
+    cases hk : m.kinds[inv.instr]? with
+    | none =>
+      have : observeOne script m inv = m := by simp [observeOne, hk]
+      simp [gobs, hk, this]
+    | some k =>
+      cases k with
+      | counter =>
+        have h1 : (observeOne script m inv).gauges = m.gauges ∧ (observeOne script m inv).clock = m.clock := by
+          simp [observeOne, hk]
+        simp [gobs, hk, h1.1, h1.2]
+      | updown =>
+        have h1 : (observeOne script m inv).gauges = m.gauges ∧ (observeOne script m inv).clock = m.clock := by
+          simp [observeOne, hk]
+        simp [gobs, hk, h1.1, h1.2]
+      | syncGauge =>
+        have : observeOne script m inv = m := by simp [observeOne, hk]
+        simp [gobs, hk, this]
+      | gauge =>
+        have h1 : (observeOne script m inv).gauges = setAt m.gauges inv.instr
+              ((stampAll m.clock (measurements (script inv.cb))).1.foldl (fun s kv => grecordOne s kv.1 kv.2) (m.gauges inv.instr)) ∧
+            (observeOne script m inv).clock = (stampAll m.clock (measurements (script inv.cb))).2 := by
+          simp [observeOne, hk, grecordAll_eq]
+        simp only [gobs, hk, h1.1, h1.2]
+        by_cases hi : inv.instr = i
+        · subst hi; simp [List.foldl_append]
+        · have hne : i ≠ inv.instr := fun e => hi e.symm
+          simp [hi, setAt_other _ _ hne]
+
+/-- the cycles observable gauge `i`'s storage sees in a meter history (samples stamped with the meter clock: a proof
+    device, the statements below speak about values) -/
+def gcyclesOf (c : Cfg) (i : Nat) : List AOp → List GCycle
+  | [] => []
+  | .collect r script :: o =>
+    ⟨(gobs script i (kindsOf o) (rrunRev (regOps o)) (amrunRev c o).clock).1, r, collectsInA o + 1⟩ :: gcyclesOf c i o
+  | .create _ :: o => gcyclesOf c i o
+  | .addcb _ _ :: o => gcyclesOf c i o
+  | .rmcb _ _ :: o => gcyclesOf c i o
+  | .destroy _ :: o => gcyclesOf c i o
+  | .grec _ _ _ :: o => gcyclesOf c i o
+
+theorem increasing_stampAll : ∀ (ms : DMap) (clock : Nat) (rest : List LOp), maxTs rest ≤ clock → Increasing rest →
+    Increasing (((stampAll clock ms).1.map fun kv => LOp.record kv.1 kv.2).reverse ++ rest) ∧
+    maxTs (((stampAll clock ms).1.map fun kv => LOp.record kv.1 kv.2).reverse ++ rest) ≤ (stampAll clock ms).2 ∧
+    clock ≤ (stampAll clock ms).2
+  | [], clock, rest, hb, hi => by simpa [stampAll] using ⟨hi, hb⟩
+  | (a, v) :: t, clock, rest, hb, hi => by
+    have hb' : maxTs (LOp.record a ⟨v, clock + 1⟩ :: rest) ≤ clock + 1 := by
+      simp only [maxTs]; exact Nat.max_le.mpr ⟨Nat.le_refl _, Nat.le_trans hb (Nat.le_succ _)⟩
+    have hi' : Increasing (LOp.record a ⟨v, clock + 1⟩ :: rest) := ⟨Nat.lt_succ_of_le hb, hi⟩
+    obtain ⟨j1, j2, j3⟩ := increasing_stampAll t (clock + 1) _ hb' hi'
+    simp only [stampAll, List.map_cons, List.reverse_cons, List.append_assoc, List.singleton_append]
+    exact ⟨j1, j2, Nat.le_trans (Nat.le_succ _) j3⟩
+
+theorem increasing_gobs (script : Script) (i : Nat) (kinds : List OKind) : ∀ (l : Registry) (clock : Nat) (rest : List LOp),
+    maxTs rest ≤ clock → Increasing rest →
+    Increasing (((gobs script i kinds l clock).1.map fun kv => LOp.record kv.1 kv.2).reverse ++ rest) ∧
+    maxTs (((gobs script i kinds l clock).1.map fun kv => LOp.record kv.1 kv.2).reverse ++ rest) ≤ (gobs script i kinds l clock).2 ∧
+    clock ≤ (gobs script i kinds l clock).2
+  | [], clock, rest, hb, hi => by simpa [gobs] using ⟨hi, hb⟩
+  | inv :: t, clock, rest, hb, hi => by
+    cases hk : kinds[inv.instr]? with
+    | none => simpa [gobs, hk] using increasing_gobs script i kinds t clock rest hb hi
+    | some k =>
+      cases k with
+      | counter => simpa [gobs, hk] using increasing_gobs script i kinds t clock rest hb hi
+      | updown => simpa [gobs, hk] using increasing_gobs script i kinds t clock rest hb hi
+      | syncGauge => simpa [gobs, hk] using increasing_gobs script i kinds t clock rest hb hi
+      | gauge =>
+        obtain ⟨s1, s2, s3⟩ := increasing_stampAll (measurements (script inv.cb)) clock rest hb hi
+        simp only [gobs, hk]
+        by_cases hi' : inv.instr = i
+        · obtain ⟨g1, g2, g3⟩ := increasing_gobs script i kinds t _ _ s2 s1
+          simp only [hi', if_true, List.map_append, List.reverse_append, List.append_assoc]
+          exact ⟨g1, g2, Nat.le_trans s3 g3⟩
+        · obtain ⟨g1, g2, g3⟩ := increasing_gobs script i kinds t (stampAll clock (measurements (script inv.cb))).2 rest
+            (Nat.le_trans hb s3) hi
+          simp only [hi', if_false]
+          exact ⟨g1, g2, Nat.le_trans s3 g3⟩
+
+/-- the meter state is consistent with history `h`, from the point of view of observable gauge `i` -/
+structure GGInv (c : Cfg) (i : Nat) (h : List AOp) (m : AMeter) : Prop where
+  kinds : m.kinds = kindsOf h
+  collects : m.collects = collectsInA h
+  storage : m.gauges i = grunRev c (gcyclesOf c i h)
+  bound : maxTs (translateG (gcyclesOf c i h)) ≤ m.clock
+  inc : Increasing (translateG (gcyclesOf c i h))
+
+theorem gginv_run (c : Cfg) (i : Nat) : ∀ h : List AOp, GGInv c i h (amrunRev c h)
+  | [] => ⟨rfl, rfl, rfl, Nat.le_refl _, trivial⟩
+  | op :: o => by
+    have hi := gginv_run c i o
+    cases op with
+    | create k => exact ⟨by simp [amrunRev, amstep, kindsOf, hi.kinds], hi.collects, hi.storage, hi.bound, hi.inc⟩
+    | addcb j cb => exact ⟨hi.kinds, hi.collects, hi.storage, hi.bound, hi.inc⟩
+    | rmcb j cb => exact ⟨hi.kinds, hi.collects, hi.storage, hi.bound, hi.inc⟩
+    | destroy j => exact ⟨hi.kinds, hi.collects, hi.storage, hi.bound, hi.inc⟩
+    | grec j a v =>
+      have hl : gcyclesOf c i (.grec j a v :: o) = gcyclesOf c i o := rfl
+      simp only [amrunRev, amstep]
+      cases hk : (amrunRev c o).kinds[j]? with
+      | none => exact ⟨hi.kinds, hi.collects, hi.storage, hi.bound, hi.inc⟩
+      | some k =>
+        cases k
+        · exact ⟨hi.kinds, hi.collects, hi.storage, hi.bound, hi.inc⟩
+        · exact ⟨hi.kinds, hi.collects, hi.storage, hi.bound, hi.inc⟩
+        · exact ⟨hi.kinds, hi.collects, hi.storage, hi.bound, hi.inc⟩
+        · exact ⟨hi.kinds, hi.collects, hi.storage, by rw [hl]; exact Nat.le_trans hi.bound (Nat.le_succ _), hi.inc⟩
+    | collect r script =>
+      obtain ⟨o1, o2, _⟩ := foldl_observe_sums script i (invocations (amrunRev c o).registry) (amrunRev c o)
+      obtain ⟨g1, g2⟩ := foldl_observe_gauge script i (invocations (amrunRev c o).registry) (amrunRev c o)
+      obtain ⟨k1, k2, _⟩ := increasing_gobs script i (kindsOf o) (rrunRev (regOps o)) (amrunRev c o).clock
+        (translateG (gcyclesOf c i o)) hi.bound hi.inc
+      have hl : gcyclesOf c i (.collect r script :: o) =
+          ⟨(gobs script i (kindsOf o) (rrunRev (regOps o)) (amrunRev c o).clock).1, r, collectsInA o + 1⟩ :: gcyclesOf c i o := rfl
+      have hreg : invocations (amrunRev c o).registry = rrunRev (regOps o) := by simp [invocations, meter_registry]
+      rw [hreg, hi.kinds] at g1 g2
+      simp only [amrunRev, amstep, amcollect, observe_eq_foldl]
+      refine ⟨o1.trans hi.kinds, by simp [collectsInA, hi.collects], ?_, ?_, ?_⟩
+      · rw [hl]; simp only [grunRev, gcycle]; rw [hreg, g1, hi.storage, hi.collects]
+      · rw [hl, hreg, g2]; simp only [translateG, maxTs, gRecs]; exact k2
+      · rw [hl]; simp only [translateG, Increasing, gRecs]; exact k1
+
+/-- every collection of the history is made by a configured reader -/
+def ValidA (c : Cfg) : List AOp → Prop
+  | [] => True
+  | .collect r _ :: o => r < c.n ∧ ValidA c o
+  | .create _ :: o => ValidA c o
+  | .addcb _ _ :: o => ValidA c o
+  | .rmcb _ _ :: o => ValidA c o
+  | .destroy _ :: o => ValidA c o
+  | .grec _ _ _ :: o => ValidA c o
+
+theorem valid_gcycles (c : Cfg) (i : Nat) : ∀ h : List AOp, ValidA c h → ∀ y ∈ gcyclesOf c i h, y.r < c.n
+  | [], _, y, hy => by simp [gcyclesOf] at hy
+  | .collect r s :: o, hv, y, hy => by
+    simp only [gcyclesOf, List.mem_cons] at hy
+    rcases hy with rfl | hy
+    · exact hv.1
+    · exact valid_gcycles c i o hv.2 y hy
+  | .create _ :: o, hv, y, hy => valid_gcycles c i o hv y hy
+  | .addcb _ _ :: o, hv, y, hy => valid_gcycles c i o hv y hy
+  | .rmcb _ _ :: o, hv, y, hy => valid_gcycles c i o hv y hy
+  | .destroy _ :: o, hv, y, hy => valid_gcycles c i o hv y hy
+  | .grec _ _ _ :: o, hv, y, hy => valid_gcycles c i o hv y hy
+
+/-- **gauge_reports_latest for observable gauges, at the meter**: for every meter history, a collection reports for
+    observable gauge `i`, per attribute set, to a cumulative reader the most recent observation made by the callbacks
+    registered on `i` (in this or an earlier collection by any reader), to a delta reader the most recent observation
+    of its own interval.  The increasing sample times are derived from the meter's sample clock. -/
+theorem meter_observable_gauge_reports_latest (c : Cfg) (i : Nat) (h : List AOp) (r : Nat) (script : Script)
+    (hv : ValidA c (.collect r script :: h)) (hk : (kindsOf h)[i]? = some .gauge) (x : Nat) :
+    (lvPoints ((amcollect c (amrunRev c h) r script).2.2 i)).lookup x =
+      match c.temp r with
+      | .cumulative => latestRec (translateG (gcyclesOf c i (.collect r script :: h))).tail x
+      | .delta => latestSince r (translateG (gcyclesOf c i (.collect r script :: h))).tail x := by
+  have hi := gginv_run c i h
+  have hi' := gginv_run c i (.collect r script :: h)
+  obtain ⟨o1, _, _⟩ := foldl_observe_sums script i (invocations (amrunRev c h).registry) (amrunRev c h)
+  obtain ⟨g1, _⟩ := foldl_observe_gauge script i (invocations (amrunRev c h).registry) (amrunRev c h)
+  have hreg : invocations (amrunRev c h).registry = rrunRev (regOps h) := by simp [invocations, meter_registry]
+  rw [hreg, hi.kinds] at g1
+  have hl : gcyclesOf c i (.collect r script :: h) =
+      ⟨(gobs script i (kindsOf h) (rrunRev (regOps h)) (amrunRev c h).clock).1, r, collectsInA h + 1⟩ :: gcyclesOf c i h := rfl
+  have hgl := gauge_reports_latest_observable_cycle c (gcyclesOf c i h)
+    ⟨(gobs script i (kindsOf h) (rrunRev (regOps h)) (amrunRev c h).clock).1, r, collectsInA h + 1⟩
+    (by rw [← hl]; exact valid_gcycles c i _ hv) (by rw [← hl]; exact hi'.inc) x
+  rw [hl]
+  simp only [translateG, List.tail_cons]
+  refine Eq.trans ?_ hgl
+  simp only [amcollect, observe_eq_foldl, gcycle]
+  rw [o1, hi.kinds, hk, hreg, g1, hi.storage, hi.collects]
+  cases (gcollect c (List.foldl (fun s kv => grecordOne s kv.1 kv.2) (grunRev c (gcyclesOf c i h))
+    (gobs script i (kindsOf h) (rrunRev (regOps h)) (amrunRev c h).clock).1) r (collectsInA h + 1)).2 <;> rfl
+
+/-- example (not vacuous): callback 3 observes 4 then 9 for attribute set 1; a cumulative reader receives 9 -/
+example :
+    let c : Cfg := ⟨[.cumulative]⟩
+    let s1 : Script := fun cb => if cb = 3 then [(1, 4)] else []
+    let s2 : Script := fun cb => if cb = 3 then [(1, 9)] else []
+    let h : List AOp := [.collect 0 s1, .addcb 0 3, .create .gauge]
+    ((lvPoints ((amcollect c (amrunRev c h) 0 s2).2.2 0)).lookup 1).map (·.v) = some 9 := by decide
+
 end Otel.C17
